@@ -241,6 +241,14 @@ def giant_gen(seed):
     return [t, Table(m, 150, cols, 'giant3100x150')]
 
 
+def marathon(seed):
+    """One lattice of several hundred concepts on which tens of thousands of DISTINCT joins / meets are run
+    (state that builds up over many calls on one object, e.g. a bounded memo that overflows)."""
+    rng = random.Random(seed * 3 + 2)
+    rows = [[j for j in range(1, 13) if rng.random() < 0.55] for _ in range(40)]
+    return [Table(40, 12, rows, 'marathon40x12')]
+
+
 def biglat(seed, big=False):
     """Lattices of several hundred to a thousand concepts with wide levels (> 128 / > 256 members)."""
     rng = random.Random(seed * 101 + 9)
